@@ -13,7 +13,8 @@ ID = "C02"
 LEVEL = "proof"
 LEAN_IMPORTS = ["WM.Props.C02"]
 THEOREMS = ["WM.C02.crash_atomic", "WM.C02.cancel", "WM.C02.commit", "WM.C02.orphans_removed",
-            "WM.C02.next_commit", "WM.C02.pattern", "WM.C02.consistent_at"]
+            "WM.C02.next_commit", "WM.C02.pattern", "WM.C02.consistent_at",
+            "WM.C02.segFiles_segOf", "WM.C02.clean_codec", "WM.C02.toc_tmp_leaks"]
 PARTIAL = {}
 RULE = ("histories of random writer transactions (adds/deletes/updates/schema changes, every merge policy, "
         "compound and loose segments, commit/cancel/failing with-block) on a tracing FileStorage; one case = "
@@ -25,8 +26,12 @@ ASSUMPTIONS = [
     "a file that was closed before the process died is complete on disk (process crash, not power loss; no fsync modelling)",
     "os.rename is atomic; os.remove / open('wb') behave as POSIX says",
     "the index name contains no regex metacharacters (it is interpolated into the TOC/segment patterns)",
-    "which files a segment needs is taken from the directory listing (all names starting with the segment id) "
-    "for loose segments and is `<id>.seg` for compound ones",
+    "in the trace requests the files of a loose segment are the names of the directory listing that start with its id "
+    "(`<id>.seg` for compound ones); the codec-files stream ties that listing to the Lean model of the codec's own file "
+    "list (FS.segFiles: .trm, .pst, one .<column>.col per column the per-document writer created, .vps), where which columns "
+    "exist is computed from the schema and the documents by the harness (TEXT with a value: _<f>_len; vector=True: "
+    "_<f>_vec, _<f>_vecL and .vps; sortable NUMERIC with a value: <f>; _stored always)",
+    "the index name starts with a character other than '_' and '.' (GoodIx, hypothesis of clean_codec / toc_tmp_leaks)",
 ]
 TRUSTED = ["harness-side TracingFileStorage subclass (event log, boundary hook, snapshot copier)"]
 MANIFEST = {
@@ -58,6 +63,7 @@ def _later_writer(snap, want_trace):
     st.tracer.enabled = False
     try:
         entries0 = T.dir_entries(st, IX, torn=())
+        out["listing0"] = sorted(os.listdir(snap))
         ix = index.FileIndex(st, indexname=IX)
         gen0 = ix.latest_generation()
         old = T.toc_info(st, IX, gen0)
@@ -303,6 +309,9 @@ def _check_history(ctx, h, stream):
                                                 " ".join(str(mk(k)) for k in ks))
         reqs.append(("commit", (h, ti, t), _finish(req, tab)))
         reqs.append(("recover", (h, ti, t, ks), rec))
+        tab4 = T.NameTable()
+        evs4, _ = T.events_sexp(tab4, events)
+        reqs.append(("delmatched", (h, ti, t), "c02 delmatched %s %s %s" % (T.name_sexp(IX), tab4.sexp(), evs4)))
         # 3. later writers on crashed snapshots
         for k, vname, ev in t["snaps"]:
             lt = ev.get("later")
@@ -332,6 +341,16 @@ def _judge(ctx, reqs, answers, stream):
                                {"seed": h["seed"], "pre": h.get("pre", 0), "txn": ti, "spec": t["txn"],
                                 "events": [list(e) for e in t["events"]][:400]},
                                want, ans)
+        elif kind == "delmatched":
+            h, ti, t = payload
+            ctx.stat("delmatched-traces")
+            ctx.stat("delmatched:" + ans)
+            if ans != "1":
+                # only a hypothesis of C02.toc_tmp_leaks (every delete hits a pattern-matched name or the temp
+                # storage): a writer that also deletes other names is not wrong for that; what the theorem
+                # concludes is checked on the real directory (toc-temp-file:fate-differs-from-model)
+                ctx.note("a writer trace deletes names matched by neither pattern nor in the temp storage: %r"
+                         % ([e[2] for e in t["events"] if e[1] == "delete"][:6],))
         elif kind == "later":
             h, ti, t, k, vname = payload
             ctx.stat("later-writer-traces")
@@ -400,6 +419,17 @@ def _judge_snaps(ctx, h, ti, t, pred, stream):
                 continue
             if lt["gen1"] != lt["gen0"] + 1 or lt["gen0"] != ev["gen"]:
                 ctx.violation("later-writer-generation", case, ev["gen"] + 1, lt["gen1"])
+            # the model's statement about leaked TOC temp files (C02.toc_tmp_leaks): the later writer removes
+            # none of them and leaves none of its own
+            tpat = re.compile(r"^_%s_[0-9]+\.toc\." % IX)
+            t0 = sorted(n for n in lt.get("listing0", []) if tpat.match(n))
+            t1 = sorted(n for n in lt["listing"] if tpat.match(n))
+            ctx.stat("toc-temp:leaked-before-later-writer", len(t0))
+            if t0:
+                ctx.stat("toc-temp:later-writers-on-a-directory-with-a-leaked-temp")
+            if t0 != t1:
+                ctx.violation("toc-temp-file:fate-differs-from-model(toc_tmp_leaks)", case, t0, t1,
+                              "TOC temp files after the next commit are not exactly the leaked ones")
             wantk = sorted(set(T.dump_keys(want_dump)) | {"kz"})
             if sorted(lt["keys"]) != wantk:
                 ctx.violation("later-writer-lost-or-mixed-documents", case, wantk, sorted(lt["keys"]),
@@ -551,11 +581,166 @@ def _listings(ctx):
 
 
 # ------------------------------------------------------------------------------------------------
+# the codec's file list: FS.segFiles / FS.listFiles vs real segments (compound and loose), and
+# clean_files end to end on loose segments whose column files carry unusual field names
+
+NUMNAMES = [u"n", u"N2", u"9z", u"a-b", u"\xe9t", u"\u540d", u"x.y", u"+p"]
+TXTNAMES = [u"t", u"Body", u"t\xe4"]
+
+
+def codec_job(job):
+    try:
+        return _codec_job(job)
+    except Exception as e:  # noqa
+        import traceback
+        return {"seed": job["seed"], "fatal": "%s: %s" % (T.errname(e), str(e)[:200]), "tb": traceback.format_exc()[-1500:]}
+
+
+def _codec_job(job):
+    from whoosh import index, fields
+    from whoosh.filedb.filestore import FileStorage
+    rng = random.Random(job["seed"])
+    base = tempfile.mkdtemp(prefix="c02c-", dir=job["scratch"])
+    try:
+        st = FileStorage(base)
+        schema = fields.Schema(k=fields.ID(stored=rng.random() < 0.8, unique=True))
+        nums = rng.sample(NUMNAMES, rng.randint(0, 3))
+        txts = [(n, rng.random() < 0.6) for n in rng.sample(TXTNAMES, rng.randint(0, 2))]
+        for n in nums:
+            schema.add(n, fields.NUMERIC(sortable=True))
+        for n, vec in txts:
+            schema.add(n, fields.TEXT(vector=vec, stored=rng.random() < 0.5))
+        ix = st.create_index(schema, indexname=IX)
+        out = {"seed": job["seed"], "commits": []}
+        key = 0
+        ncommits = rng.randint(1, 3)
+        for ci in range(ncommits):
+            compound = rng.random() < 0.4
+            w = ix.writer(compound=compound)
+            docs = []
+            for _ in range(rng.randint(1, 3)):
+                d = {"k": u"k%d" % key}
+                key += 1
+                for n in nums:
+                    if rng.random() < 0.7:
+                        d[n] = rng.randint(0, 9)
+                for n, _v in txts:
+                    if rng.random() < 0.7:
+                        d[n] = u" ".join(rng.choice(T.WORDS) for _ in range(rng.randint(1, 3)))
+                w.add_document(**d)
+                docs.append(d)
+            last = ci == ncommits - 1
+            merge = "optimize" if (last and ncommits > 1 and rng.random() < 0.7) else "nomerge"
+            if merge == "optimize":
+                w.commit(optimize=True)
+            else:
+                w.commit(merge=False)
+            # the shape of the segment this writer wrote, from the schema and the documents only
+            toc = index.TOC.read(st, IX)
+            listing = sorted(st.list())
+            segs = []
+            for seg in toc.segments:
+                sid = seg.segment_id()
+                if seg.is_compound():
+                    cs = seg.open_compound_file(st)
+                    inner = sorted(cs.list())
+                    cs.close()
+                else:
+                    inner = None
+                segs.append({"sid": sid, "segid": seg.segid, "compound": bool(seg.is_compound()),
+                             "list_files": sorted(seg.list_files(st)), "inner": inner})
+            out["commits"].append({"compound": compound, "merge": merge, "docs": docs, "listing": listing,
+                                   "segs": segs, "gen": toc.generation})
+        out["schema"] = {"stored_k": bool(schema["k"].stored), "nums": nums, "txts": txts,
+                         "stored_t": {n: bool(schema[n].stored) for n, _v in txts}}
+        return out
+    finally:
+        shutil.rmtree(base, ignore_errors=True)
+
+
+def _shape_columns(schema, docs):
+    """which columns the per-document writer creates for these documents (harness-side rule, see ASSUMPTIONS)"""
+    cols = set(["_stored"])      # W3PerDocWriter.__init__ creates the stored-fields column unconditionally
+    vectors = False
+    for d in docs:
+        for n in schema["nums"]:
+            if n in d:
+                cols.add(n)
+        for n, vec in schema["txts"]:
+            if n in d:
+                cols.add("_%s_len" % n)
+                if vec:
+                    cols.add("_%s_vec" % n)
+                    cols.add("_%s_vecL" % n)
+                    vectors = True
+    return sorted(cols), vectors
+
+
+def _codec_files(ctx, scratch, seeds=None):
+    n = ctx.budget(48, 400)
+    jobs = [{"seed": "%s:%s:codec:%d" % (ID, ctx.seed, i), "scratch": scratch} for i in range(n)]
+    if seeds:
+        jobs = [{"seed": sd, "scratch": scratch} for sd in seeds]
+    results = ctx.pmap(codec_job, jobs)
+    lines, keep = [], []
+    for r in results:
+        if r.get("fatal"):
+            ctx.violation("codec-files-stream:writer-raises", {"seed": r["seed"]}, "runs", r["fatal"], r["tb"])
+            continue
+        alldocs = []
+        for ci, c in enumerate(r["commits"]):
+            alldocs += c["docs"]
+            cur = set(s["sid"] for s in c["segs"])
+            case = {"seed": r["seed"], "commit": ci, "merge": c["merge"], "compound": c["compound"],
+                    "fields": r["schema"]["nums"] + [x for x, _ in r["schema"]["txts"]]}
+            # end to end: after the commit every file that carries a segment id belongs to a segment of
+            # the TOC (pattern-independent test: prefix `<ix>_`), i.e. clean_files left no orphan
+            left = [f for f in c["listing"] if f.startswith(IX + "_") and f != IX + "_WRITELOCK"
+                    and not any(f.startswith(sid + ".") for sid in cur)]
+            ctx.case(("codec-clean", tuple(case["fields"]), c["merge"], c["compound"]),
+                     nontrivial=c["merge"] == "optimize")
+            if left:
+                ctx.violation("clean_files:file-of-unreferenced-segment-left", case, [], left,
+                              "files of segments the new TOC does not reference survive the commit's clean-up")
+            # the segment written by this commit: the newest one (optimize: the only one)
+            seg = c["segs"][-1]
+            docs = alldocs if c["merge"] == "optimize" else c["docs"]
+            cols, vectors = _shape_columns(r["schema"], docs)
+            ctx.stat("codec:segment:" + ("compound" if seg["compound"] else "loose"))
+            ctx.stat("codec:columns", len(cols))
+            for comp in ([1, 0] if seg["compound"] else [0]):
+                lines.append("c02 segfiles %s %s %d (%s) %d" % (T.name_sexp(IX), T.name_sexp(seg["segid"]), comp,
+                                                                " ".join(T.name_sexp(x) for x in cols), 1 if vectors else 0))
+                keep.append(("segfiles", case, seg, comp))
+            lines.append("c02 listfiles %s (%s)" % (T.name_sexp(seg["sid"]), " ".join(T.name_sexp(x) for x in c["listing"])))
+            keep.append(("listfiles", case, seg, None))
+    answers = ctx.driver.ask(lines)
+    for (kind, case, seg, comp), ans in zip(keep, answers):
+        model = sorted("".join(chr(int(ch)) for ch in nm) for nm in parse_sexp(ans)[0])
+        if kind == "listfiles":
+            ctx.case(("listfiles", tuple(model)), nontrivial=bool(model))
+            if model != seg["list_files"]:
+                ctx.divergence("Segment.list_files", case, model, seg["list_files"])
+            continue
+        ctx.case(("segfiles", comp, tuple(case["fields"]), tuple(n[len(seg["sid"]):] for n in model)), nontrivial=len(model) > 2)
+        if seg["compound"] and comp == 1:
+            impl = seg["list_files"]          # what is in the directory: only <id>.seg
+        elif seg["compound"]:
+            impl = seg["inner"]               # what create_compound_file assembled: the loose files
+        else:
+            impl = seg["list_files"]
+        if model != impl:
+            ctx.divergence("W3 segment file list (FS.segFiles)", dict(case, as_compound=comp), model, impl)
+
+
+# ------------------------------------------------------------------------------------------------
 
 def run(ctx):
     _corpus(ctx)
     _patterns(ctx)
     _listings(ctx)
+    with ctx.scratch() as scratch:
+        _codec_files(ctx, scratch)
     with ctx.scratch() as scratch:
         quick = ctx.tier == "quick"
         # the enumeration is bounded in wall-clock time (measured from the start of the check):
@@ -605,6 +790,9 @@ def _replay_case(ctx, rec, scratch):
     if seed is None:
         return False
     before = len(ctx.violations) + len(ctx.divergences)
+    if ":codec:" in str(seed):
+        _codec_files(ctx, scratch, seeds=[seed])
+        return len(ctx.violations) + len(ctx.divergences) > before
     _histories(ctx, "replay", njobs=1, ntxn=case.get("txn", 0) + 1, full=True, later_stride=1, trace_share=1.0,
                scratch=scratch, seeds=[seed], pre=case.get("pre", 0))
     return len(ctx.violations) + len(ctx.divergences) > before
